@@ -213,6 +213,29 @@ func StoreTouch(ctx context.Context, cli client.Client, obj client.Object, touch
 	if ts := obj.GetCreationTimestamp(); ts.IsZero() {
 		obj.SetCreationTimestamp(old.GetCreationTimestamp())
 	}
+	if ts := obj.GetDeletionTimestamp(); ts != nil && old.GetDeletionTimestamp() == nil {
+		// the API server sets metadata.deletionTimestamp on a delete request of an object that has finalizers
+		obj.SetDeletionTimestamp(nil)
+		if len(obj.GetFinalizers()) == 0 {
+			obj.SetFinalizers([]string{"verif/keep"})
+		}
+		if err := cli.Update(ctx, obj); err != nil {
+			return "", nil, err
+		}
+		if err := cli.Delete(ctx, obj); err != nil {
+			return "", nil, err
+		}
+		if err := cli.Get(ctx, client.ObjectKeyFromObject(obj), obj); err != nil {
+			return "", nil, err
+		}
+		setTypeMeta(obj)
+		setTypeMeta(old)
+		return "update", old, nil
+	}
+	if old.GetDeletionTimestamp() != nil {
+		obj.SetDeletionTimestamp(old.GetDeletionTimestamp())
+		obj.SetFinalizers(old.GetFinalizers())
+	}
 	if err := cli.Update(ctx, obj); err != nil {
 		return "", nil, err
 	}
@@ -227,7 +250,14 @@ func Remove(ctx context.Context, cli client.Client, obj client.Object) (client.O
 	if err := cli.Get(ctx, client.ObjectKeyFromObject(obj), old); err != nil {
 		return nil, err
 	}
-	if err := cli.Delete(ctx, old); err != nil {
+	if old.GetDeletionTimestamp() != nil && len(old.GetFinalizers()) > 0 {
+		// already terminating: the last finalizer goes away and the API server drops the object
+		upd := newOf(old)
+		upd.SetFinalizers(nil)
+		if err := cli.Update(ctx, upd); err != nil {
+			return nil, err
+		}
+	} else if err := cli.Delete(ctx, old); err != nil {
 		return nil, err
 	}
 	setTypeMeta(old)
